@@ -42,12 +42,71 @@ pub fn add_tags(b: &mut Built) {
     b.analysis = analyse(&b.prog);
 }
 
+/// Make one pair of adjacent plain row statements identical, tag included ("twins"): nothing
+/// but their line tells them apart. Returns (tag, id of the first, id of the second, items per
+/// evaluation).
+fn make_twins(b: &mut Built, ch: &mut Ch) -> Option<(i64, usize, usize, usize)> {
+    fn sites(bl: &[Stmt], path: &mut Vec<usize>, out: &mut Vec<Vec<usize>>) {
+        for (i, s) in bl.iter().enumerate() {
+            if let (Stmt::Row(..), Some(Stmt::Row(..))) = (s, bl.get(i + 1)) {
+                let mut p = path.clone();
+                p.push(i);
+                out.push(p);
+            }
+            if let Stmt::Loop(_, _, inner) | Stmt::While(_, inner) = s {
+                path.push(i);
+                sites(inner, path, out);
+                path.pop();
+            }
+        }
+    }
+    let mut all = vec![];
+    sites(&b.prog.stmts, &mut vec![], &mut all);
+    if all.is_empty() {
+        return None;
+    }
+    let path = all[ch.upto(all.len())].clone();
+    let mut bl: &mut Vec<Stmt> = &mut b.prog.stmts;
+    for i in &path[..path.len() - 1] {
+        bl = match &mut bl[*i] {
+            Stmt::Loop(_, _, inner) | Stmt::While(_, inner) => inner,
+            _ => return None,
+        };
+    }
+    let i = *path.last().unwrap();
+    let (id1, es) = match &bl[i] {
+        Stmt::Row(id, es) => (*id, es.clone()),
+        _ => return None,
+    };
+    let id2 = match &mut bl[i + 1] {
+        Stmt::Row(id, es2) => {
+            *es2 = es.clone();
+            *id
+        }
+        _ => return None,
+    };
+    // items per evaluation: 2^(X in input-bound columns) x (3 if C)
+    let mut col = 0usize;
+    let mut nx = 0u32;
+    let mut c = false;
+    for e in &es {
+        match e {
+            Entry::X(_) if b.cols.get(col).map(|c| c.role != ColRole::ExpectedOnly).unwrap_or(false) => nx += 1,
+            Entry::C(_) => c = true,
+            _ => {}
+        }
+        col += e.width();
+    }
+    b.analysis = analyse(&b.prog);
+    Some((id1 as i64 + 1, id1, id2, (1usize << nx) * if c { 3 } else { 1 }))
+}
+
 impl Property for C19 {
     fn id(&self) -> &'static str {
         "C19"
     }
     fn rule(&self) -> &'static str {
-        "profile `lines`: flow programs (with C/X rows and repeat, depth 0-4) printed with 0-4 blank lines before the header, blank and comment-only lines anywhere after it, trailing comments, LF or CRLF throughout or chosen line by line, varied blank space, last row with or without newline; every row statement carries a unique literal tag in a dedicated 32-bit input column. Oracle (no control-flow semantics): for every yielded row, dynamic and static, row.line == the line the printer recorded for the tag read back from the row's own input vector; every top-level row's tag must be seen. Non-trivial: some row at depth >= 1, or lines inserted above a row, or CRLF, or leading blank lines; distinct by text."
+        "profile `lines`: flow programs (with C/X rows and repeat, depth 0-4) printed with 0-4 blank lines before the header, blank and comment-only lines anywhere after it, trailing comments, LF or CRLF throughout or chosen line by line, varied blank space, last row with or without newline; in a quarter of the cases the driver fails on one call and the caller goes on; every row statement carries a unique literal tag in a dedicated 32-bit input column - except that in a third of the cases two adjacent rows are made identical, tag included (blocks of g items then alternate between their two lines). Oracle (no control-flow semantics): for every yielded row, dynamic and static, row.line == the line the printer recorded for the tag read back from the row's own input vector; every top-level row's tag must be seen. Non-trivial: some row at depth >= 1, or lines inserted above a row, or CRLF, or leading blank lines; distinct by text."
     }
     fn cases(&self, tier: Tier) -> u64 {
         match tier {
@@ -56,20 +115,33 @@ impl Property for C19 {
         }
     }
     fn required_classes(&self) -> Vec<&'static str> {
-        vec!["crlf", "mixed-line-ends", "lead-blank", "comment-lines", "no-final-newline", "row-in-loop", "static-run", "repeat", "C-row", "X-row", "last-line-is-row-without-newline"]
+        vec!["crlf", "mixed-line-ends", "lead-blank", "comment-lines", "no-final-newline", "row-in-loop", "static-run", "repeat", "C-row", "X-row", "last-line-is-row-without-newline", "row-after-driver-failure", "second-of-identical-rows-checked"]
     }
     fn run(&self, s: &Streams) -> CaseOut {
         let mut out = CaseOut::new();
         let cfg = lines_cfg();
         let mut built = gen_case(&mut Ch::new(&s[0]), &cfg);
         add_tags(&mut built);
+        // in a third of the cases two adjacent rows are made identical, tag and all: every
+        // execution of that block yields the items of the first, then those of the second, and
+        // only `line` tells them apart
+        let mut tch = Ch::new(&s[2]);
+        let _ = (tch.u64(), tch.u64(), tch.u64());
+        let twins = if tch.chance(1, 3) { make_twins(&mut built, &mut tch) } else { None };
+        out.class_if(twins.is_some(), "identical-adjacent-rows");
         let lines = program_lines(&built.prog);
         let r = render(&lines, &mut Ch::new(&s[1]), LayoutOpts::ALL);
-        let spec = gen_spec(
-            &mut Ch::new(&s[2]),
+        let mut dch = Ch::new(&s[2]);
+        let mut spec = gen_spec(
+            &mut dch,
             &built.sigs,
             &SpecCfg { palette: Palette::Small, zx: 0, free_layout: false, must_supply: built.must_supply(), both_driver_types: true },
         );
+        // in a quarter of the cases the driver fails on one call; the caller goes on, and the rows
+        // that follow still report their own lines
+        if dch.chance(1, 4) {
+            spec.fail_at = Some(1 + dch.upto(12));
+        }
         render_case(&mut out, &r.text, &built.sigs, Some(&spec));
         let f = feats(&built);
         feat_classes(&mut out, &f);
@@ -87,13 +159,15 @@ impl Property for C19 {
         let Some(tc) = load_wellformed(&mut out, "c19", &r.text, &built.sigs) else {
             return out;
         };
-        let real = run_real(&tc, &built.sigs, &spec, &RunOpts { max_next: 600, ..Default::default() });
+        let real = run_real(&tc, &built.sigs, &spec, &RunOpts { max_next: 600, continue_after_driver_error: true, ..Default::default() });
         if let Some(RealItem::Panic(p)) = &real.ctor {
             out.fail(p.key(), format!("constructor panicked: {p}"));
             return out;
         }
         let mut seen = BTreeSet::new();
         let mut complete = real.ended;
+        let mut after_failure = false;
+        let mut twin_items = 0usize;
         let check = |tag: Option<InVal>, line: usize, what: &str, out: &mut CaseOut, seen: &mut BTreeSet<usize>| -> bool {
             let Some(InVal::Val(t)) = tag else {
                 out.fail("c19:no-tag", format!("{what}: row without TAG input"));
@@ -114,7 +188,31 @@ impl Property for C19 {
         for (i, item) in real.items.iter().enumerate() {
             match item {
                 RealItem::Row(row) => {
+                    out.class_if(after_failure, "row-after-driver-failure");
                     let tag = row.inputs.iter().find(|e| e.0 == "TAG").map(|e| e.1);
+                    if let (Some((t, id1, id2, g)), Some(InVal::Val(tv))) = (twins, tag) {
+                        if tv == t {
+                            // k-th item with this tag: blocks of g items alternate first / second
+                            // (only relied on while no item has been lost to a driver failure)
+                            if spec.fail_at.is_none() {
+                                let id = if (twin_items / g) % 2 == 0 { id1 } else { id2 };
+                                twin_items += 1;
+                                seen.insert(id);
+                                out.class_if(id == id2, "second-of-identical-rows-checked");
+                                if row.line != r.row_line[id] {
+                                    out.fail(
+                                        "c19:wrong-line",
+                                        format!("dynamic item {i}: item {} of the two identical adjacent rows on lines {} and {} ({g} items per evaluation) reports line {}, must be {}", twin_items - 1, r.row_line[id1], r.row_line[id2], row.line, r.row_line[id]),
+                                    );
+                                    return out;
+                                }
+                            } else {
+                                seen.insert(id1);
+                                seen.insert(id2);
+                            }
+                            continue;
+                        }
+                    }
                     if !check(tag, row.line, &format!("dynamic item {i}"), &mut out, &mut seen) {
                         return out;
                     }
@@ -122,6 +220,10 @@ impl Property for C19 {
                 RealItem::Panic(p) => {
                     out.fail(p.key(), format!("item {i} panicked: {p}"));
                     return out;
+                }
+                RealItem::DriverErr(_) => {
+                    complete = false;
+                    after_failure = true;
                 }
                 _ => {
                     complete = false;
@@ -137,6 +239,9 @@ impl Property for C19 {
                         match it {
                             StaticItem::Row(row) => {
                                 let tag = row.inputs.iter().find(|e| e.0 == "TAG").map(|e| e.1);
+                                if matches!((twins, tag), (Some((t, ..)), Some(InVal::Val(tv))) if tv == t) {
+                                    continue;
+                                }
                                 if !check(tag, row.line, &format!("static item {i}"), &mut out, &mut seen) {
                                     return out;
                                 }
